@@ -330,6 +330,11 @@ def asm_not_pure(chk, I, rule, files, floor):
                 n += 1
                 chk.ob(rule, '%s: asm block is not `pure`' % f['name'], 'PURE' not in t['opts'], 'options %s' % t['opts'], t['loc'], nontrivial=False)
                 tpl = ''.join((p.get('s') if p.get('s') is not None else '{%s}' % p.get('op')) for p in t['tpl'])
+                # a block that pushes or pops uses the stack: `nostack` would let the compiler keep live data in the red zone below rsp
+                stack_mn = [ln.strip().split()[0].lower() for ln in re.split(r'[;\n]', tpl) if ln.strip() and
+                            ln.strip().split()[0].lower() in ('push', 'pop', 'pushf', 'pushfq', 'popf', 'popfq', 'call', 'enter', 'leave')]
+                if stack_mn:
+                    chk.ob(rule, '%s: `%s` uses the stack: the block is not `nostack`' % (f['name'], stack_mn[0]), 'NOSTACK' not in t['opts'], 'options %s' % t['opts'], t['loc'])
                 for line in re.split(r'[;\n]', tpl):
                     line = line.strip()
                     if not re.search(r'\[\s*\{\d+\}', line):
